@@ -247,6 +247,7 @@ class MethodCtx:
         inwhile = {id(x) for w in ast.walk(fn) if isinstance(w, ast.While) for x in ast.walk(w)}
         return any(isinstance(n, ast.Raise) for n in ast.walk(fn)) or self._calls_raising(fn) \
             or any(self._list_pop(n) is not None and id(n) not in inwhile for n in ast.walk(fn)) \
+            or any(isinstance(n, ast.Delete) or self._next_iter(n, None) for n in ast.walk(fn)) \
             or any(self._is_dict_read(n, None) and id(n) not in guarded for n in ast.walk(fn)) \
             or any(isinstance(n, ast.AugAssign) and self._is_dict_read(self._as_load(n.target), None) for n in ast.walk(fn))
 
@@ -475,6 +476,19 @@ class MethodCtx:
             return "None"
         if isinstance(s, ast.If):
             return self.if_stmt(s.test, s.body, s.orelse, rest, env, mode)
+        if isinstance(s, ast.Assign) and len(s.targets) == 1 and isinstance(s.targets[0], ast.Name) and self._next_iter(s.value, env):
+            # k = next(iter(d)): the first key in insertion order; StopIteration on an empty dict
+            d = self._next_iter(s.value, env)
+            if mode != "method":
+                _u(s, "next(iter(d)) inside a loop")
+            v = s.targets[0].id
+            env2 = env.copy()
+            env2.locals[v] = "Z"
+            env2.narrow.pop(v, None)
+            env2.known_in.add((ast.unparse(s.value.args[0].args[0]), v))
+            self.raises = True
+            k = self.block(rest, env2, mode)
+            return f"match {d} with\n| [] => None\n| ({v}, _) :: _ =>\n{textwrap.indent(k, '    ')}\nend"
         if isinstance(s, ast.Assign):
             if len(s.targets) != 1:
                 _u(s, "multiple assignment targets")
@@ -488,11 +502,38 @@ class MethodCtx:
             return self.assign(s.target, ast.BinOp(left=load, op=s.op, right=s.value, lineno=s.lineno), rest, env, mode, s)
         if isinstance(s, ast.Expr):
             return self.expr_stmt(s.value, rest, env, mode)
+        if isinstance(s, ast.Delete) and len(s.targets) == 1 and isinstance(s.targets[0], ast.Subscript):
+            t = s.targets[0]
+            if isinstance(t.value, ast.Attribute) and isinstance(t.value.value, ast.Name) and t.value.value.id == "self" \
+                    and self.cls.fields.get(t.value.attr) == "dict" and not self.pure and mode == "method":
+                f = t.value.attr
+                k, kt = self.expr(t.slice, env)
+                if kt in ZLIKE:
+                    env2 = env.copy()
+                    env2.mutated = True
+                    self.raises = True
+                    if not self._uses_raise:
+                        _u(s, "del d[k] in a method not scanned as raising")
+                    body = f"let self := set_{self.cls.fld(f)} self (ddel ({self.cls.fld(f)} self) {k}) in\n" + self.block(rest, env2, mode)
+                    return f"if dmem ({self.cls.fld(f)} self) {k}\nthen\n{textwrap.indent(body, '  ')}\nelse\n  None"
+            _u(s, "unsupported del")
         if isinstance(s, ast.For):
             return self.for_stmt(s, rest, env, mode)
         if isinstance(s, ast.While):
             return self.while_stmt(s, rest, env, mode)
         _u(s, "unsupported statement")
+
+    def _next_iter(self, e, env):
+        """next(iter(<dict>)) -> coq text of the dict, else None"""
+        if isinstance(e, ast.Call) and isinstance(e.func, ast.Name) and e.func.id == "next" and len(e.args) == 1 and not e.keywords:
+            a = e.args[0]
+            if isinstance(a, ast.Call) and isinstance(a.func, ast.Name) and a.func.id == "iter" and len(a.args) == 1:
+                if env is None:
+                    return "?"
+                d, dt = self.expr(a.args[0], env)
+                if dt == "dict":
+                    return d
+        return None
 
     def _is_impure_self_call(self, e):
         if isinstance(e, ast.Call) and isinstance(e.func, ast.Attribute) and isinstance(e.func.value, ast.Name) \
@@ -579,7 +620,7 @@ class MethodCtx:
         # truthiness of an optional path (`x if self._ts else None` style) is rejected; of a list: non-empty
         c, t = self.expr(test, env)
         if t != "B":
-            if isinstance(t, tuple) and t[0] == "list":
+            if (isinstance(t, tuple) and t[0] == "list") or t == "dict":
                 c = f"(negb (match {c} with [] => true | _ => false end))"
             else:
                 _u(test, f"condition of type {t}")
@@ -684,6 +725,8 @@ class MethodCtx:
                 _u(node, "subscript assignment to a non-dict field")
             k, kt = self.expr(target.slice, env)
             v, vt = self.expr(value, env)
+            if vt == "none":
+                v, vt = "0", "Z"        # d[k] = None: a dict used as an ordered set (the value is never read)
             if kt not in ZLIKE or vt not in ZLIKE:
                 _u(node, "dict key/value must be Z")
             env.mutated = True
@@ -765,6 +808,34 @@ class MethodCtx:
                         self.raises = True
                         return f"match {callee} with\n| None => None\n| Some ({tmp}, _) =>\n{textwrap.indent(k, '    ')}\nend"
                     return f"let '({tmp}, _) := {callee} in\n{k}"
+                if ft == "dict" and not self.pure:
+                    env2 = env.copy()
+                    env2.mutated = True
+                    setf = f"let self := set_{self.cls.fld(f)} self"
+                    cur = f"({self.cls.fld(f)} self)"
+                    if e.func.attr == "clear" and not e.args and not e.keywords:
+                        return f"{setf} [] in\n" + self.block(rest, env2, mode)
+                    if e.func.attr == "pop" and len(e.args) == 2 and isinstance(e.args[1], ast.Constant) and e.args[1].value is None:
+                        k, kt = self.expr(e.args[0], env)      # d.pop(k, None): remove if present, no error
+                        if kt in ZLIKE:
+                            return f"{setf} (ddel {cur} {k}) in\n" + self.block(rest, env2, mode)
+                    if e.func.attr == "move_to_end" and len(e.args) == 1 and not e.keywords and isinstance(e.args[0], ast.Name) \
+                            and (ast.unparse(recv), e.args[0].id) in env.known_in:
+                        k, kt = self.expr(e.args[0], env)      # (KeyError impossible: guarded by `k in d`)
+                        return f"{setf} (dmove_end {cur} {k}) in\n" + self.block(rest, env2, mode)
+                    _u(e, "unsupported dict statement")
+                if isinstance(ft, tuple) and ft[0] == "list" and f not in self.cls.heaps and not self.pure:
+                    if e.func.attr == "clear" and not e.args and not e.keywords:
+                        env2 = env.copy()
+                        env2.mutated = True
+                        return f"let self := set_{self.cls.fld(f)} self [] in\n" + self.block(rest, env2, mode)
+                    if e.func.attr == "remove" and len(e.args) == 1 and isinstance(e.args[0], ast.Name) and ft[1] in ZLIKE \
+                            and (ast.unparse(recv), e.args[0].id) in env.known_in:
+                        env2 = env.copy()
+                        env2.mutated = True
+                        k, kt = self.expr(e.args[0], env)      # (ValueError impossible: guarded by `x in l`)
+                        return (f"let self := set_{self.cls.fld(f)} self (py_remove1 ({self.cls.fld(f)} self) {k}) in\n"
+                                + self.block(rest, env2, mode))
                 if isinstance(ft, tuple) and ft[0] == "list" and f in self.cls.heaps:
                     _u(e, "a heap field is only touched through heapq.heappush / heappop")
                 if isinstance(ft, tuple) and ft[0] == "list":
@@ -1203,6 +1274,9 @@ class MethodCtx:
                 d, dt = self.expr(e.comparators[0], env)
                 if dt == "dict" and kt in ZLIKE:
                     txt = f"(dmem {d} {k})"
+                    return (txt if isinstance(e.ops[0], ast.In) else f"(negb {txt})"), "B"
+                if dt == ("list", "Z") and kt in ZLIKE:
+                    txt = f"(py_in {d} {k})"
                     return (txt if isinstance(e.ops[0], ast.In) else f"(negb {txt})"), "B"
             _u(e, "is/in outside an if-condition None test")
         vals = [self.expr(e.left, env)] + [self.expr(c, env) for c in e.comparators]
